@@ -24,7 +24,7 @@ TraceNext ==
     /\ l' = l + 1
     /\ LET ev == Rec[l] IN
        CASE ev.e = "reset" -> ev.ok /\ Reset(ev)
-         [] ev.e = "load"  -> Has(ev, "ret") /\ (LoadFlow(ev) \/ LoadHot(ev))
+         [] ev.e = "load"  -> Has(ev, "ret") /\ (LoadFlow(ev) \/ \E inh \in BOOLEAN : LoadHot(ev, inh))
          [] ev.e = "enter" -> \E fo \in FlowStage(ev) : \E ho \in HotStage(ev, Add(Tm(ev), fo.wait)) :
                                  EnterOK(ev, fo, ho) /\ Enter(ev, fo, ho)
          [] ev.e \in {"exit", "adv"} -> ~Has(ev, "panic") /\ Other(ev)
